@@ -564,6 +564,24 @@ func (fv *FnV) evalSpecCall(st *State, call *ast.CallExpr, name string, o *types
 			inner = "(! " + inner + " " + pats + ")"
 		}
 		return Val{fmt.Sprintf("(exists ((%s Int)) %s)", bv, inner), rt}
+	case "__forallRef":
+		fl := call.Args[0].(*ast.FuncLit)
+		pid := fl.Type.Params.List[0].Names[0]
+		pobj := fv.prog.Info.Defs[pid]
+		fv.nfresh++
+		bv := fmt.Sprintf("%s!q%d", pid.Name, fv.nfresh)
+		sf := fv.specTop()
+		if sf == nil {
+			sf = &specFrame{cur: map[types.Object]Val{}, old: map[types.Object]Val{}}
+			fv.specStack = append(fv.specStack, sf)
+			defer func() { fv.specStack = fv.specStack[:len(fv.specStack)-1] }()
+		}
+		sf.cur[pobj] = Val{bv, pobj.Type()}
+		sf.old[pobj] = Val{bv, pobj.Type()}
+		body := fv.eval(st, fl.Body.List[0].(*ast.ReturnStmt).Results[0])
+		delete(sf.cur, pobj)
+		delete(sf.old, pobj)
+		return Val{fmt.Sprintf("(forall ((%s Int)) (=> (> %s 0) %s))", bv, bv, body.T), rt}
 	case "__forallInt":
 		fl := call.Args[0].(*ast.FuncLit)
 		pid := fl.Type.Params.List[0].Names[0]
@@ -886,9 +904,9 @@ func (fv *FnV) evalClauseStep(st *State, cl *Clause, li *loopInfo, start *State)
 	var pos token.Pos
 	switch x := li.stmt.(type) {
 	case *ast.ForStmt:
-		pos = x.Body.Lbrace + 1
+		pos = x.Body.Rbrace
 	case *ast.RangeStmt:
-		pos = x.Body.Lbrace + 1
+		pos = x.Body.Rbrace
 	}
 	scope := fv.prog.Pkg.Scope().Innermost(pos)
 	for _, p := range fv.clauseParams(cl) {
